@@ -44,7 +44,7 @@ def lifecycles(draw, tier):
             c["params"]["d"] = [0.0] * na
     ops = []
     for _ in range(draw(st.integers(1, 6))):
-        k = draw(st.sampled_from(["mutate_am", "mutate_ph", "reinit", "train", "train", "train_no_bases", "grad_slices"]))
+        k = draw(st.sampled_from(["mutate_am", "mutate_ph", "reinit", "train", "train", "train_no_bases", "grad_slices", "poison_reinit"]))
         op = {"op": k}
         if k.startswith("mutate"):
             op["delta"] = draw(st.floats(0.5, 2.0, allow_nan=False, width=64))
@@ -152,7 +152,16 @@ def check(c):
                     nt = True
             mutated = True
             labels.append("mutation")
-        elif k == "reinit":
+        elif k in ("reinit", "poison_reinit"):
+            if k == "poison_reinit":
+                # a diverged run leaves inf / nan behind; reinitialising must still give zero biases and fresh finite weights
+                for net in state.networks:
+                    rb = getattr(state, net)
+                    rb.visible_bias.data[0] = float("inf")
+                    rb.hidden_bias.data[-1] = float("nan")
+                    W = rb.weights_W if t == "density" else rb.weights
+                    W.data[0, 0] = float("-inf")
+                labels.append("poisoned")
             shapes = {net: {kk: tuple(v.shape) for kk, v in snap(getattr(state, net)).items()} for net in state.networks}
             olds = {net: snap(getattr(state, net)) for net in state.networks}
             state.reinitialize_parameters()
@@ -163,7 +172,7 @@ def check(c):
                     if "bias" in kk:
                         require(bool((v == 0).all()), "reinit:biases", f"{net}.{kk} is not zero after reinitialising")
                     else:
-                        require(not torch.equal(v, olds[net][kk]) and bool((v != 0).any()), "reinit:weights-not-redrawn", f"{net}.{kk} was not redrawn by reinitialize_parameters")
+                        require(not torch.equal(v, olds[net][kk]) and bool((v != 0).any()) and bool(torch.isfinite(v).all()), "reinit:weights-not-redrawn", f"{net}.{kk} was not redrawn (to finite random values) by reinitialize_parameters")
             if has_ph:
                 require(storage_disjoint(state.rbm_am, state.rbm_ph), "reinit:aliased-networks", "networks share storage after reinitialising")
             if t == "density":
